@@ -62,6 +62,10 @@ CHECKS = {
             "For each of the 13 mutating entry points (annotate, annotate_from_iter/file, insert_data, add_resource, add_dataset, StoreFor::insert, query_mut ...) the check enumerates every way an error can be returned after persistent state may have been written: pairs (writing call, later `?`/Err exit) inside the entry, and every reachable function that is itself non-atomic. The library has no rollback, so today's 80+ pairs are genuine and listed as known findings (StoreFor::insert pushes before inserted() can fail, annotate resolves the target and inserts data before the annotation, batches stop half-way); what is decided is that no *new* write-then-fail path appears: a new fallible step after a commit point, a write moved before a check, or a batch made streaming is reported.",
             "trusts rustc MIR and the over-approximated call graph; 'may write' is an over-approximation (callers of writers are writers); observational equality after a failure is not decided beyond 'no write before the error'",
             "DESIGN.md section 4 C14, A5", "mir"),
+    "C15": ("other", "table agreement of selector kinds between writer and reader arms (syn); dominance of with_target over Ok exits (MIR); sibling agreement of the eight column writers and of the three row literals; finite evaluation of Cursor print/parse; shape of the data/set id loop",
+            "Decides the structural necessary conditions of the CSV round trip for every store: each of the six simple selector kinds the writer emits has an arm in the reader's simple branch and in its complex branch; every Ok exit of the row reader is dominated by with_target (rows without data keep their target); all eight column writers expand both internal ranged selector kinds into one ';' slot per contained selector, so columns stay aligned; Display and TryFrom<&str> for Cursor are mutually inverse for both alignments including \"-0\" (evaluated from the extracted bodies); the writer appends exactly one data id and one set id per data item; the three row literals build shared columns identically (one known finding: the Id column). Value text and files are not decided.",
+            "trusts syn/rustc, the evaluator; identifiers containing ';' are outside the claim",
+            "DESIGN.md section 4 C15", "syn+mir"),
 }
 
 NA = {
